@@ -210,11 +210,15 @@ def run(chk):
         "provenance axioms for numpy / builtins: basic indexing, .T, reshape, ravel, asarray, dict.get/values/items yield aliases; arithmetic, astype, copy, array, comprehension, sorted, list(), dict() yield fresh objects (a fresh container may hold aliased elements: tracked as elem:)",
         "C-level code of numpy / scipy does not write into its inputs unless asked to (out=)",
         "method calls are resolved by name over all iodata classes (over-approximation)",
-        "contracts of prepare_segmented / prepare_unrestricted_aminusb (C14) and of api.dump_one (C08)",
+        "contract of api.dump_one (C08); the prepare_* contracts of C14 are re-proved in this check",
     ]
     chk.assumptions += ["the analysis is flow-insensitive within a function (sound over-approximation of provenance)", "storing into self inside setters/constructors of iodata classes is not a mutation of the *caller's* data unless the object came from the caller; the IOData.atcorenums getter is licensed by the statement", "output streams (parameters f / fh / file) are written to by design"]
-    res = collect(chk, run_jobs([("checks.c09", "job_frame", {})]))
+    # "conversions are explicit and equivalent": the contracts of the two prepare_* helpers (identity short-cut only when
+    # nothing needs converting, error without allow_changes, warning with it) are those proved for C14; re-proved here
+    res = collect(chk, run_jobs([("checks.c09", "job_frame", {}), ("checks.c14", "job_prepare_unrestricted", {}), ("checks.c14", "job_prepare_segmented", {})]))
     for r in res:
+        if not isinstance(r, dict) or "functions" not in r:
+            continue
         chk.notes["functions_in_call_graph"] = r.get("functions")
         chk.notes["mutation_sites_checked"] = r.get("mutation_sites")
     run_bounded(chk)
